@@ -23,7 +23,7 @@ RULE = ("a universe of values built to contain equal values of different represe
         "map / record; empties of every kind; nil; NaN; nested mixes). pairs: ALL ordered pairs of "
         "separately built objects plus every value against itself as one object, observing (= x y), "
         "(= y x), hash equality, (get (hash-map x :found) y) and (contains? (hash-set x) y) both ways. "
-        "triples: quick = seeded sample of 20000, thorough = all, observing the six `=`. "
+        "triples: quick = seeded sample of 12000 over the universe, thorough = ALL 60^3 over a 60-element core + 50000 sampled over the full universe, observing the six `=`. "
         "A case is non-trivial when its operands are not all the same description; distinct = distinct JSON.")
 TRUSTED = ["CPython numeric ==/hash: int, float, Fraction, Decimal and bool compare by exact value and equal "
            "numbers hash alike (modelled: exact extended rationals, which __eq__ handles which operand class)",
@@ -40,7 +40,7 @@ ASSUMPTIONS = ["theorems quantify over well-formed values (Model.wf: map keys / 
                "identified by the map itself; map entries have two items)",
                "records carry no extension map and no metadata; Decimal NaN/sNaN and complex numbers are "
                "outside the universe; transient collections compare by identity and are outside it"]
-EXHAUSTIVE = {"quick": False, "thorough": True}
+EXHAUSTIVE = {"quick": False, "thorough": False}
 NWORKERS = 3
 
 
@@ -127,6 +127,14 @@ UNIVERSE = [
 ]
 
 
+# thorough tier: ALL triples over the 60-element core (the universe minus these indices, which
+# duplicate an equality class already represented) plus a seeded sample over the full universe
+NON_CORE = {9, 10, 14, 19, 20, 21, 23, 26, 27, 28, 36, 37, 38, 41, 43, 48, 51, 53, 58, 61, 68, 69, 74, 77, 80,
+            82, 86}
+QUICK_TRIPLES = 12000
+THOROUGH_EXTRA_TRIPLES = 50000
+
+
 def _jd(x):
     return json.dumps(x, sort_keys=True)
 
@@ -144,9 +152,12 @@ def cases(tier, rng):
     for i in range(n):
         for j in range(n):
             yield {"k": "pair", "same": False, "x": UNIVERSE[i], "y": UNIVERSE[j]}
-    triples = list(itertools.product(range(n), repeat=3))
     if tier == "quick":
-        triples = rng.sample(triples, 20000)
+        triples = [tuple(rng.randrange(n) for _ in range(3)) for _ in range(QUICK_TRIPLES)]
+    else:
+        core = [i for i in range(n) if i not in NON_CORE]
+        triples = list(itertools.product(core, repeat=3))
+        triples += [tuple(rng.randrange(n) for _ in range(3)) for _ in range(THOROUGH_EXTRA_TRIPLES)]
     for i, j, k in triples:
         yield {"k": "triple", "x": UNIVERSE[i], "y": UNIVERSE[j], "z": UNIVERSE[k]}
 
